@@ -339,7 +339,7 @@ class Ctx:
         shards = [cases[i:i + shard] for i in range(0, len(cases), shard)]
         files = []
         for si, sh_cases in enumerate(shards):
-            mod = f"{self.prop}_{name}_{si}"
+            mod = f"{self.prop}_{name}_{si}_p{os.getpid()}"
             path = os.path.join(CASES, mod + ".v")
             with open(path, "w") as f:
                 f.write(imports + "\n")
@@ -374,7 +374,7 @@ class Ctx:
     def coq_eval_val(self, name: str, imports: str, term: str, timeout=300):
         """Evaluate a term of type val inside Coq and return it parsed (for replay reports)."""
         os.makedirs(CASES, exist_ok=True)
-        path = os.path.join(CASES, f"{self.prop}_{name}_show.v")
+        path = os.path.join(CASES, f"{self.prop}_{name}_show_p{os.getpid()}.v")
         with open(path, "w") as f:
             f.write(imports + "\nFrom DvcData Require Import Base.Val.\nImport ListNotations.\nOpen Scope N_scope.\n")
             f.write("Set Printing Depth 1000000.\nSet Printing Width 200.\n")
@@ -667,7 +667,9 @@ def finish(ctx: Ctx, mod) -> int:
         "wall_s": round(wall, 2),
         "violations": reported,
     }
-    with open(os.path.join(VERIF, "evidence", ctx.prop + ".json"), "w") as f:
+    ev_dir = os.path.join(VERIF, "evidence") if os.path.realpath(REPO) == "/repo" else os.path.join(VERIF, "replays", "scratch-evidence")
+    os.makedirs(ev_dir, exist_ok=True)
+    with open(os.path.join(ev_dir, ctx.prop + ".json"), "w") as f:
         json.dump(ev, f, indent=1, sort_keys=True, default=str)
         f.write("\n")
     for ln in lines:
